@@ -17,7 +17,7 @@ RULE = ("(a) 1-6 positive scales log-uniform in [1e-6,1e6] (+ extremes, equal va
         "module that is not a documented rule; (c) per constrained op and constraint name, scalars fitted under the "
         "constraint vs the rule applied (in the harness) to the scalars fitted under None; (d) torch.autograd.gradcheck "
         "on the constrained inputs. Non-trivial = scales not all equal (rules), constraint not None (ops); distinct by "
-        "(kind, rule/op, constraint, shape signature or scale count+spread bucket).")
+        "(kind, rule/op, constraint, shape signature or scale count+spread bucket). Attention also runs with dropout 0.1-0.5 and the mask pinned (generator re-seeded before the library call and before the reference call).")
 ASSUMPTIONS = ["fractions/decimal arithmetic is exact to the stated digits", "torch.autograd.gradcheck finite differences (eps 1e-6)"]
 IMPORTS = ["unit_scaling.constraints", "unit_scaling.functional", "unit_scaling.core.functional"]
 REQUIRED_MONITORS = ["contract:gmean", "contract:hmean", "contract:amean", "contract:apply_constraint",
